@@ -902,6 +902,41 @@ def items_loops(tree: ast.AST) -> ast.AST:
     return ast.fix_missing_locations(_ItemsLoops().visit(tree))
 
 
+class _CompiledRegex(ast.NodeTransformer):
+    """`P = re.compile(<literal>)` at module level ... `P.match(s)`  ->  `re.match(<literal>, s)` (same for search,
+    findall, fullmatch, split, sub, finditer): a pre-compiled pattern is the pattern."""
+    METHODS = {"match", "search", "findall", "fullmatch", "split", "sub", "subn", "finditer"}
+
+    def __init__(self, table):
+        self.table = table
+
+    def visit_Call(self, node):
+        self.generic_visit(node)
+        f = node.func
+        if isinstance(f, ast.Attribute) and f.attr in self.METHODS and isinstance(f.value, ast.Name) and f.value.id in self.table:
+            import copy as _c
+            return ast.copy_location(ast.Call(ast.Attribute(ast.Name("re", ast.Load()), f.attr, ast.Load()),
+                                              [_c.deepcopy(self.table[f.value.id])] + node.args, node.keywords), node)
+        return node
+
+
+def compiled_regexes(tree: ast.Module) -> ast.AST:
+    table = {}
+    stores = {}
+    for x in ast.walk(tree):
+        if isinstance(x, ast.Name) and isinstance(x.ctx, ast.Store):
+            stores[x.id] = stores.get(x.id, 0) + 1
+    for st in tree.body:
+        if isinstance(st, ast.Assign) and len(st.targets) == 1 and isinstance(st.targets[0], ast.Name) and isinstance(st.value, ast.Call) \
+                and isinstance(st.value.func, ast.Attribute) and st.value.func.attr == "compile" and isinstance(st.value.func.value, ast.Name) \
+                and st.value.func.value.id == "re" and len(st.value.args) == 1 and not st.value.keywords \
+                and isinstance(st.value.args[0], ast.Constant) and stores.get(st.targets[0].id) == 1:
+            table[st.targets[0].id] = st.value.args[0]
+    if not table:
+        return tree
+    return ast.fix_missing_locations(_CompiledRegex(table).visit(tree))
+
+
 class AnalysisError(Exception):
     """Anchor vanished / unparsable file / floor not met: exit 2, never a pass."""
 
@@ -1060,7 +1095,7 @@ class Repo:
         from .inline import inline_new_helpers, known_functions, undo_renames
         self.renamed = undo_renames({mod: v[3] for mod, v in raw.items()})
         for mod, (path, rel, src, tree) in raw.items():
-            tree = items_loops(paired_names(literal_forms(numpy_idioms(function_aliases(strip_inert(tree))))))
+            tree = items_loops(paired_names(literal_forms(numpy_idioms(function_aliases(compiled_regexes(strip_inert(tree)))))))
             tree, inl, skipped = inline_new_helpers(tree, mod, known_functions())
             if inl:
                 self.inlined[mod] = sorted(set(inl))
